@@ -94,8 +94,22 @@ func yieldPairs(cat gen.Catalog, first, second []*gen.Stmt) func(func(*gen.Progr
 	}
 }
 
+type menus struct {
+	S2, SA1, SA2 []*gen.Src
+}
+
+// numscriptMenus returns some of the source menus of a tier (the thorough tier
+// reuses the quick depth-2 menus for its largest products).
+func numscriptMenus(thorough bool) menus {
+	var m menus
+	numscriptSpaceInto(thorough, &m)
+	return m
+}
+
 // numscriptSpace builds the stage list for a tier.
-func numscriptSpace(thorough bool) spaceDesc {
+func numscriptSpace(thorough bool) spaceDesc { return numscriptSpaceInto(thorough, nil) }
+
+func numscriptSpaceInto(thorough bool, out *menus) spaceDesc {
 	cat := catalog(thorough)
 
 	// ---- menus -------------------------------------------------------------
@@ -157,6 +171,10 @@ func numscriptSpace(thorough bool) spaceDesc {
 		}
 	}
 	allSrc := concatSrc(L, S1, S2, SA1, SA2)
+	if out != nil {
+		out.S2, out.SA1, out.SA2 = S2, SA1, SA2
+		return spaceDesc{}
+	}
 
 	dstAccs := []string{"@a", "@b", "@world", "$acc"}
 	if thorough {
@@ -279,16 +297,18 @@ func numscriptSpace(thorough bool) spaceDesc {
 			{"E5: every ordered pair of the statement menu", yieldPairs(cat, T, T)},
 		}
 	} else {
-		d01 := concatDst(DL, D1seq, D1all)
-		s01 := concatSrc(L, S1, SA1)
+		// quick-sized menus reused for the large products of the thorough tier
+		q := numscriptMenus(false)
+		s01 := concatSrc(L, S1)
+		d01 := concatDst(DL, gen.DstSeq1(dmaxes, KD0, KD0), gen.DstAllots(pv2, KD0))
 		st = []stage{
 			{"E1: 1 send, every source (depth<=2, allotments) x 3 probe destinations x 5 amounts", yieldProduct(cat, amounts, allSrc, dstProbe)},
 			{"E2: 1 send, 5 probe sources x every destination (depth<=2) x 5 amounts", yieldProduct(cat, amounts, srcProbe, allDst)},
-			{"E3: 1 send, variable amounts x every depth<=1 source x leaf destinations", yieldProduct(cat, amountsVar, s01, DL)},
+			{"E3: 1 send, variable amounts x every depth<=1 source (incl. flat allotments of the quick menu) x leaf destinations", yieldProduct(cat, amountsVar, concatSrc(s01, q.SA1), DL)},
 			{"E4: single statements of the statement menu", yieldStmts(cat, T)},
 			{"E5: every ordered pair of the statement menu", yieldPairs(cat, T, T)},
-			{"E6: 1 send, every depth<=1 source x every depth<=1 destination x 5 amounts (full product)", yieldProduct(cat, amounts, s01, d01)},
-			{"E7: 1 send, every depth-2 source x reduced depth<=2 destinations x 5 amounts", yieldProduct(cat, amounts, concatSrc(S2, SA2), concatDst(DR, D1R, D2))},
+			{"E6: 1 send, every depth<=1 non-allotment source x every depth<=1 destination (1 in-order clause / 2-way allotment) x 5 amounts (full product)", yieldProduct(cat, amounts, s01, d01)},
+			{"E7: 1 send, every depth-2 source of the quick menus x reduced depth<=1 destinations x amounts {1,7,*}", yieldProduct(cat, []gen.Amount{{Mon: coin(1)}, {Mon: coin(7)}, {All: true, Asset: assetMain}}, concatSrc(q.S2, q.SA2), concatDst(DR, D1R))},
 		}
 	}
 	rule = fmt.Sprintf("grammar enumeration (no sampling) of NumScript.g4 programs: leaf sources = {@a,@b,$acc} x {plain, overdraft up to %v, unbounded} + @world (%d); depth-1 = max M from leaf (M in %v) and in-order {leaf leaf} (%d); depth-2 over a reduced leaf menu of %d (%d sources); source allotments (%d flat, %d nested); destinations: %d leaves (+kept), %d in-order, %d allotments, %d depth-2; portions %v; amounts {0,1,7,100,*} plus variable amounts; statement menu of %d (sends, save, set_tx_meta, set_account_meta, fail; second asset USD/2) and all its ordered pairs; every program x every assignment of its variables from the catalog menus (acc=%v mon=%v p=%v, meta(@m,..), balance(@a,COIN)) x every balance vector over {-3,0,1,5,100} for each account in source/save/balance() position",
